@@ -53,6 +53,12 @@ pub const QUERY_POOL: &[&str] = &[
     "(binary_operator left: (_) @x) @x",
     "(call function: (_) @x) @x",
     "(attribute object: (_) @dup) @dup",
+    // four captures on one pattern step: tree-sitter keeps three and reports the fourth as occurring once, without a node
+    "(assignment left: (identifier) @q1 @q2 @q3 @q4) @qa",
+    // predicate strings that END in an escaped backslash (the closing quote follows a backslash that is itself escaped)
+    "((identifier) @id (#eq? @id \"a\\\\\"))",
+    "((string) @s (#match? @s \"\\\\\\\\\"))",
+    "((identifier) @id (#not-eq? @id \"x\\\\\") (#eq? @id \"b\\\"q\"))",
 ];
 
 #[derive(Clone, Debug)]
@@ -105,6 +111,12 @@ thread_local! {
     // C06: the next injected static-rule violation uses this (rule, sub-form) instead of random ones, so that the
     // catalogue x form product is covered evenly; consumed by the first call of `violation`
     pub static FORCE_RULE: std::cell::Cell<Option<(usize, usize)>> = std::cell::Cell::new(None);
+}
+
+thread_local! {
+    // C19 compares TEXT printed by another process: the order of several syntax nodes inside one set value follows their
+    // addresses (false alarm 1 / 13 in DESIGN 0.6), so its programs must not build such sets
+    pub static NO_SYNTAX_NODE_SETS: std::cell::Cell<bool> = std::cell::Cell::new(false);
 }
 
 #[derive(Clone, Debug, Default)]
@@ -1281,6 +1293,64 @@ pub fn gen_program(r: &mut Rng, pool: &[Pattern], opts: &Opts) -> Program {
         let pat = *g.r.pick(&["(module)", "(identifier)", "(pass_statement)"]);
         stanzas.push(format!("{} @sb {{\n  let @sb.base = 10\n}}\n", pat));
         stanzas.push(format!("{} @su {{\n  node sun\n  var total = 1\n  set total = (plus total @su.base)\n  attr (sun) total = total\n}}\n", pat));
+    }
+    if opts.static_fault == 0 && g.r.chance(1, 4) {
+        // two DIFFERENT syntax nodes of the same kind that start at the same position (`a + b + c`, `x.y.z`, `f(1)(2)`): they are
+        // two values (unequal, two set elements), whatever they have in common (C01)
+        g.feature("nested-same-start-nodes");
+        let pat = *g.r.pick(&["(binary_operator left: (binary_operator) @inner) @outer", "(attribute object: (attribute) @inner) @outer",
+            "(call function: (call) @inner) @outer", "(binary_operator left: (_) @inner) @outer", "(subscript value: (subscript) @inner) @outer"]);
+        if NO_SYNTAX_NODE_SETS.with(|c| c.get()) {
+            stanzas.push(format!("{} {{\n  node nso\n  attr (nso) same = (eq @outer @inner), refl = (eq @inner @inner), lst = [@inner, @outer], one = {{@inner, @inner}}\n}}\n", pat));
+        } else {
+            stanzas.push(format!("{} {{\n  node nso\n  attr (nso) same = (eq @outer @inner), refl = (eq @inner @inner), both = {{@outer, @inner}}, lst = [@inner, @outer], three = {{@inner, @outer, @inner}}\n}}\n", pat));
+        }
+    }
+    if opts.static_fault == 0 && g.r.chance(1, 5) {
+        // one hub node with MANY outgoing edges whose sinks are not created in increasing order, each edge with an attribute put on
+        // it after later edges exist (C08, C09, C15, C17): the hub hangs on the module and is reached through an inherited variable
+        g.feature("hub-with-many-unordered-edges");
+        header.push_str("inherit .hub\n");
+        stanzas.push("(module) @hm {\n  node @hm.hub\n}\n".to_string());
+        let pat = *g.r.pick(&["(identifier)", "(identifier)", "[(integer) (identifier)]", "(expression_statement)"]);
+        let late = if g.r.chance(1, 2) { "\n  attr (@hi.hub -> hb) late = (start-row @hi)" } else { "" };
+        stanzas.push(format!("{} @hi {{\n  node ha\n  node hb\n  edge @hi.hub -> hb\n  edge @hi.hub -> ha\n  attr (@hi.hub -> ha) k = (source-text @hi){}\n}}\n", pat, late));
+    }
+    if opts.static_fault == 0 && g.r.chance(1, 8) {
+        // patterns with several sibling wildcards: every tuple of children is a match, so many matches are in progress at
+        // once on a wide node — each of them runs its block (C01, C02, C03); the checks pair these programs with WIDE sources
+        g.feature("sibling-tuples");
+        stanzas.push(match g.r.below(3) {
+            0 => "(module (_) @t1 (_) @t2 (_) @t3) {\n  node tn\n  attr (tn) a = (start-row @t1), b = (start-row @t2), c = (start-row @t3)\n}\n",
+            1 => "(module (expression_statement) @p1 (expression_statement) @p2) {\n  node pn\n  attr (pn) a = (start-row @p1), b = (start-row @p2)\n}\n",
+            _ => "(argument_list (identifier) @g1 (identifier) @g2) {\n  node gn\n  attr (gn) a = (source-text @g1), b = (source-text @g2)\n}\n",
+        }.to_string());
+    }
+    if opts.fragment && opts.static_fault == 0 && g.r.chance(1, 5) {
+        // the VALUE of a scoped variable reads the same name on another node (a value handed from child to parent): no cycle per
+        // node, so lazy evaluation resolves the chain like strict evaluation does (C02)
+        g.feature("scoped-value-reads-same-name-on-other-node");
+        if g.r.chance(1, 2) {
+            stanzas.push("(integer) @di {\n  let @di.depth = 0\n}\n".to_string());
+            stanzas.push("(assignment right: (integer) @di2) @da {\n  let @da.depth = (plus @di2.depth 1)\n}\n".to_string());
+            stanzas.push("(expression_statement (assignment) @da2) @ds {\n  let @ds.depth = (plus @da2.depth 1)\n  node dn\n  attr (dn) depth = @ds.depth, below = @da2.depth\n}\n".to_string());
+        } else {
+            stanzas.push("(module . (_) @hp) @hm2 {\n  let @hp.handed = (node-type @hp)\n  let @hm2.handed = [@hp.handed, \"up\"]\n  node hn\n  attr (hn) v = @hm2.handed\n}\n".to_string());
+        }
+    }
+    if opts.scoped_heavy && !opts.fragment && g.r.chance(1, 3) {
+        // define on the root, read from a leaf, define on the nodes in between, read from the same leaf again: in strict mode the
+        // second read sees the nearer definition that arrived after the first read (C04)
+        g.feature("inherited-define-read-define-read");
+        header.push_str("inherit .iv\n");
+        stanzas.push("(module) @ivm {\n  let @ivm.iv = \"module\"\n}\n".to_string());
+        stanzas.push("[(pass_statement) (integer) (identifier)] @ivr1 {\n  node ir1\n  attr (ir1) first = @ivr1.iv\n}\n".to_string());
+        stanzas.push("[(function_definition) (class_definition) (if_statement) (for_statement)] @ivn {\n  let @ivn.iv = (node-type @ivn)\n}\n".to_string());
+        stanzas.push("[(pass_statement) (integer) (identifier)] @ivr2 {\n  node ir2\n  attr (ir2) second = @ivr2.iv\n}\n".to_string());
+        if g.r.chance(1, 2) {
+            stanzas.push("(block) @ivb {\n  let @ivb.iv = \"block\"\n}\n".to_string());
+            stanzas.push("[(pass_statement) (integer) (identifier)] @ivr3 {\n  node ir3\n  attr (ir3) third = @ivr3.iv, again = @ivr3.iv\n}\n".to_string());
+        }
     }
     if opts.scoped_heavy {
         g.feature("scoped-heavy");
